@@ -247,6 +247,11 @@ func replayCase(k kase) (observed, string, error) {
 	return ob, src, nil
 }
 
+func openFDs() int {
+	ents, _ := os.ReadDir("/proc/self/fd")
+	return len(ents)
+}
+
 func kinds(c []stmt) string {
 	var ks []string
 	for _, s := range c {
@@ -382,9 +387,11 @@ func runConf(c *lib.Ctx, dir string, maxLen int, wide bool, perClass map[string]
 	if firstErr != nil {
 		return 0, firstErr
 	}
+	c.Logf("open fds after G replay: %d", openFDs())
 	if err := compileOnlyCases(c, cases); err != nil {
 		return 0, err
 	}
+	c.Logf("open fds after compileonly: %d", openFDs())
 	return len(cases), nil
 }
 
